@@ -10,6 +10,7 @@ import Mahotas.Proofs.C19Integral
 import Mahotas.Proofs.C19Haralick
 import Mahotas.Proofs.C19Zernike
 import Mahotas.Proofs.C19Necklace
+import Mahotas.Proofs.C19HaralickFeat
 namespace Mahotas.C19
 open Mahotas Mahotas.Generated
 
@@ -241,6 +242,66 @@ theorem C19_lbp_bins_count :
    fun P v hP hv => pivot_unique P v hP hv, card_classes,
    fun P h1 h2 => (pivots_closed_form P h1 h2).trans (necklaceSum_mathlib P h1 h2)⟩
 
+/-- **C19-T7 (the Haralick features without logarithms are their textbook formulas).** `haralick13` (the model the
+driver runs at `Float`, compared with the real `haralick` at 1e-9) is assembled from generic definitions — first part:
+f2, f3, f4, f5, f6, f7, f10 of the returned list *are* `contrastG`, `covG / (sqrt vx · sqrt vy)`, `varG`, `idmG`, `sumAvgG`,
+`sumVarG`, `diffVarG` at `Float` (by `rfl`). Over **any ordered field**, for every `m × m` count matrix `c` with non-zero
+total, `p = c / Σc`, marginals `p_x = p.sum(0)`, `p_y = p.sum(1)`, `p_{x+y}`, `p_{x−y}`:
+* contrast `Σ_k k² p_{x−y}(k) = Σ_{i,j} (i − j)² p(i,j)`;
+* sum average `Σ_k k p_{x+y}(k) = Σ_{i,j} (i + j) p(i,j) = μ_y + μ_x`;
+* inverse difference moment `Σ p(i,j)/(1 + (i−j)²) ∈ [0, 1]`;
+* the variances `Σ k² p_x(k) − μ_x²` (f4) and `Σ k² p_y(k) − μ_y²` are `≥ 0`;
+* covariance² `(Σ i j p(i,j) − μ_x μ_y)² ≤ var_x · var_y` (weighted Cauchy–Schwarz, no square roots), hence with any
+  positive square roots `s_x² = var_x`, `s_y² = var_y` the correlation `cov/(s_x s_y)` lies in `[−1, 1]` (where a
+  variance vanishes the textbook formula is 0/0 and the check does not compare f3);
+* sum variance `Σ_k (k − f6)² p_{x+y}(k) ≥ 0` and difference variance `≥ 0`.
+The entropies f8, f9, f11 and the information measures f12, f13 are the textbook `−Σ q log₂ q` formulas of the model at
+`Float` (`entropy`); no identity about them is proved. -/
+theorem C19_haralick_features_def :
+    (∀ (m : ℕ) (c : List ℕ),
+      let P := matAt 0.0 m (normMat Float.ofNat c)
+      let px := colSumG 0.0 m P
+      let py := rowSumG 0.0 m P
+      let h := haralick13 m c
+      h.getD 1 0.0 = contrastG 0.0 Float.ofNat m (pminusG 0.0 m P) ∧
+      h.getD 2 0.0 = covG 0.0 Float.ofNat m P (meanG 0.0 Float.ofNat px m) (meanG 0.0 Float.ofNat py m) /
+        (Float.sqrt (varG 0.0 Float.ofNat px m) * Float.sqrt (varG 0.0 Float.ofNat py m)) ∧
+      h.getD 3 0.0 = varG 0.0 Float.ofNat px m ∧
+      h.getD 4 0.0 = idmG 0.0 1.0 Float.ofNat m P ∧
+      h.getD 5 0.0 = sumAvgG 0.0 Float.ofNat m (pplusG 0.0 m P) ∧
+      h.getD 6 0.0 = sumVarG 0.0 Float.ofNat m (pplusG 0.0 m P) (sumAvgG 0.0 Float.ofNat m (pplusG 0.0 m P)) ∧
+      h.getD 9 0.0 = diffVarG 0.0 Float.ofNat m (pminusG 0.0 m P)) ∧
+    (∀ {α : Type} [Field α] [LinearOrder α] [IsStrictOrderedRing α]
+      (m : ℕ) (c : List ℕ), c.length = m * m → c.sum ≠ 0 →
+      let P := matAt (0 : α) m (normMat (Nat.cast : ℕ → α) c)
+      let px := colSumG 0 m P
+      let py := rowSumG 0 m P
+      let ux := meanG 0 Nat.cast px m
+      let uy := meanG 0 Nat.cast py m
+      let vx := varG 0 Nat.cast px m
+      let vy := varG 0 Nat.cast py m
+      let cov := covG 0 Nat.cast m P ux uy
+      let f6 := sumAvgG 0 Nat.cast m (pplusG 0 m P)
+      contrastG 0 Nat.cast m (pminusG 0 m P) =
+        ∑ i ∈ Finset.range m, ∑ j ∈ Finset.range m, ((i : α) - (j : α)) ^ 2 * P i j ∧
+      f6 = ∑ i ∈ Finset.range m, ∑ j ∈ Finset.range m, ((i : α) + (j : α)) * P i j ∧
+      f6 = uy + ux ∧
+      (0 ≤ idmG 0 1 Nat.cast m P ∧ idmG 0 1 Nat.cast m P ≤ 1) ∧
+      (0 ≤ vx ∧ 0 ≤ vy) ∧
+      cov ^ 2 ≤ vx * vy ∧
+      (∀ sx sy : α, sx ^ 2 = vx → sy ^ 2 = vy → 0 < sx → 0 < sy →
+        -1 ≤ cov / (sx * sy) ∧ cov / (sx * sy) ≤ 1) ∧
+      0 ≤ sumVarG 0 Nat.cast m (pplusG 0 m P) f6 ∧
+      0 ≤ diffVarG 0 Nat.cast m (pminusG 0 m P)) := by
+  refine ⟨fun m c => ⟨rfl, rfl, rfl, rfl, rfl, rfl, rfl⟩, ?_⟩
+  intro α _ _ _ m c hlen hT P px py ux uy vx vy cov f6
+  have h0 : ∀ i j, 0 ≤ P i j := fun i j => matAt_nonneg m c i j
+  have h1 : ∑ i ∈ Finset.range m, ∑ j ∈ Finset.range m, P i j = 1 := matAt_total m c hlen hT
+  exact ⟨contrast_eq m P, sumAvg_eq m P, sumAvg_eq_means m P, idm_bounds m P h0 h1, var_nonneg m P h0 h1,
+    cov_sq_le m P h0 h1,
+    fun sx sy hx hy px' py' => corr_bounds cov vx vy sx sy (cov_sq_le m P h0 h1) hx hy px' py',
+    sumVar_nonneg m P h0 f6, diffVar_nonneg m _⟩
+
 /-! non-vacuity -/
 example : coocCount [2, 3] (fun p => ([0, 1, 1, 1, 0, 1].getD (ravelI [2, 3] p) 0)) [0, 1] 1 1 = 1 ∧
     coocSym [2, 3] (fun p => ([0, 1, 1, 1, 0, 1].getD (ravelI [2, 3] p) 0)) [0, 1] 0 1 = 3 := by decide
@@ -265,3 +326,10 @@ example :
   decide +kernel
 example : pivots 4 = [0, 1, 3, 5, 7, 15] ∧ (pivots 8).length = 36 ∧ RotEq 4 0b0110 0b0011 := by
   refine ⟨by decide +kernel, by decide +kernel, ⟨1, by decide⟩⟩
+/-- the count matrix `[[1,2],[2,3]]`: contrast 1/2, sum average 5/4, IDM 3/4, variances 15/64, covariance −1/64 -/
+example :
+    let P := matAt (0 : Rat) 2 (normMat (Nat.cast : Nat → Rat) [1, 2, 2, 3])
+    contrastG 0 Nat.cast 2 (pminusG 0 2 P) = 1 / 2 ∧ sumAvgG 0 Nat.cast 2 (pplusG 0 2 P) = 5 / 4 ∧
+    idmG 0 1 Nat.cast 2 P = 3 / 4 ∧ varG 0 Nat.cast (colSumG 0 2 P) 2 = 15 / 64 ∧
+    covG 0 Nat.cast 2 P (meanG 0 Nat.cast (colSumG 0 2 P) 2) (meanG 0 Nat.cast (rowSumG 0 2 P) 2) = -1 / 64 := by
+  decide +kernel
